@@ -19,6 +19,9 @@ def main() -> int:
   ap.add_argument("--replay", default=None)
   a = ap.parse_args()
   seed = int(os.environ.get("VERIF_SEED", "20260921"))
+  import warp as wp
+
+  wp.config.log_level = wp.LOG_WARNING
   if a.prop == "setup":
     from . import setup
 
